@@ -107,15 +107,22 @@ def combine_clang(repo):
     inner = fds[0].get("inner", [])
     parms = [c.get("name") for c in inner if c.get("kind") == "ParmVarDecl"]
     bodies = [c for c in inner if c.get("kind") == "CompoundStmt"]
-    if parms != ["seed", "value"] or len(bodies) != 1 or len(bodies[0].get("inner", [])) != 1:
+    if parms != ["seed", "value"] or len(bodies) != 1 or len(bodies[0].get("inner", [])) < 1:
         return "shape"
+    # the body: any number of definitions of CONST locals (each initialised once, from the parameters and earlier locals),
+    # then exactly one statement that updates the seed; a use of a local stands for its initialiser
+    stmts = bodies[0]["inner"]
+    env = {}
 
     def term(d):
         k = d.get("kind")
-        if k in ("ParenExpr", "ImplicitCastExpr"):
+        if k in ("ParenExpr", "ImplicitCastExpr", "CXXFunctionalCastExpr", "CXXStaticCastExpr", "ConstantExpr", "ExprWithCleanups"):
             return term(d["inner"][0])
         if k == "DeclRefExpr":
-            return ("ref", (d.get("referencedDecl") or {}).get("name"))
+            name = (d.get("referencedDecl") or {}).get("name")
+            if name in env:
+                return env[name]
+            return ("ref", name)
         if k == "IntegerLiteral":
             return ("lit", int(d["value"]))
         if k in ("BinaryOperator", "CompoundAssignOperator"):
@@ -128,7 +135,16 @@ def combine_clang(repo):
         return [t]
 
     try:
-        t = term(bodies[0]["inner"][0])
+        for st in stmts[:-1]:
+            if st.get("kind") != "DeclStmt":
+                return "shape"
+            for v in st.get("inner", []):
+                qt = (v.get("type") or {}).get("qualType", "")
+                if v.get("kind") != "VarDecl" or not qt.startswith("const ") or "&" in qt or "*" in qt or len(v.get("inner", [])) != 1 \
+                        or v.get("name") in ("seed", "value") or v.get("name") in env:
+                    return "shape"
+                env[v["name"]] = term(v["inner"][0])
+        t = term(stmts[-1])
         seed = ("ref", "seed")
         if t[0] == "^=" and t[1] == seed:
             rhs = t[2]
@@ -152,17 +168,35 @@ def combine_clang(repo):
         return "shape"
 
 
-def seed_of(src, header_re, call_re):
+def seed_of(src, header_re, param, call_name):
+    """the literal S of `std::size_t seed = S;` in the (single) function matching header_re, provided the rest of the body is
+    what the model follows: seed is passed once to <call_name><0>(seed, <param>) (the start index may be left out for the
+    variant helper), returned, and written nowhere else"""
     body = body_of(src, header_re)
     if body is None:
         return None, "function not found exactly once"
-    m = re.fullmatch(r"std::size_t seed = " + LIT + r" ?; " + call_re + r" ?; return seed ?;", body)
-    if not m:
-        return None, "body is not `std::size_t seed = S; <combine all>; return seed;` but: " + body[:80]
-    v = int_lit(m.group(1))
+    inits = re.findall(r"\b(?:const )?(?:std::)?size_t seed ?(?:= ?" + LIT + r"|\{ ?" + LIT + r" ?\}|\( ?" + LIT + r" ?\)) ?;", body)
+    if len(inits) != 1:
+        return None, "no single `std::size_t seed = <integer literal>;` in: " + body[:80]
+    lit = [x for x in inits[0] if x][0]
+    calls = re.findall(r"\b(?:detail::)?" + call_name + r" ?(?:< ?0 ?> ?)?\( ?seed ?, ?" + param + r" ?\) ?;", body)
+    rets = re.findall(r"\breturn seed ?;", body)
+    writes = re.findall(r"\bseed ?(?:[-+*/%^|&]|<<|>>)?=(?!=)", body)
+    if len(calls) != 1 or len(rets) != 1 or len(writes) != 1 or len(re.findall(r"\bseed\b", body)) != 3:
+        return None, "body is not `std::size_t seed = S; <combine all>(seed, %s); return seed;` but: %s" % (param, body[:80])
+    v = int_lit(lit)
     if v is None:
         return None, "unreadable literal"
     return v, None
+
+
+def seed_for(src, what, call_name):
+    """hash(const std::<what><T...>& <any parameter name>)"""
+    hdr = r"inline\s+auto\s+hash\s*\(\s*(?:const\s+std::%s\s*<\s*T\s*\.\.\.\s*>|std::%s\s*<\s*T\s*\.\.\.\s*>\s+const)\s*&\s*(\w+)\s*\)\s*\{" % (what, what)
+    ms = list(re.finditer(hdr, src, flags=re.S))
+    if len(ms) != 1:
+        return None, "hash(const std::%s<T...>&) not found exactly once" % what
+    return seed_of(src, hdr, re.escape(ms[0].group(1)), call_name)
 
 
 def word(v, why):
@@ -193,10 +227,8 @@ def generate(repo):
             notes.append("hash_combine_impl read from the clang AST (non-canonical spelling)")
         elif cl != consts:
             consts, why = None, "clang and the lexical reading of hash_combine_impl disagree: %r vs %r" % (cl, consts)
-        tseed, twhy = seed_of(src, r"inline\s+auto\s+hash\s*\(\s*const\s+std::tuple\s*<\s*T\s*\.\.\.\s*>\s*&\s*t\s*\)\s*\{",
-                              r"detail::hash_combine_tuple ?< ?0 ?> ?\( ?seed ?, ?t ?\)")
-        vseed, vwhy = seed_of(src, r"inline\s+auto\s+hash\s*\(\s*const\s+std::variant\s*<\s*T\s*\.\.\.\s*>\s*&\s*t\s*\)\s*\{",
-                              r"detail::hash_combine_variant ?(?:< ?0 ?> ?)?\( ?seed ?, ?t ?\)")   # with or without the start index
+        tseed, twhy = seed_for(src, "tuple", "hash_combine_tuple")
+        vseed, vwhy = seed_for(src, "variant", "hash_combine_variant")
     c = consts or [None, None, None]
     text = """(* GENERATED by gen/tr_hash.py from the repository on every run — do not edit.
    Constants of nitro::lang::detail::hash_combine_impl and the initial seeds of hash(tuple) / hash(variant). %s *)
